@@ -72,6 +72,14 @@ func genC04(w *World, res *CheckResult) {
 	} else {
 		res.Obls = append(res.Obls, missingObl("checker.init/exists", "initialiser or contract missing"))
 	}
+	// (1b) the optimizer's membership rewrites run outside any recover (expr.Compile calls optimizer.Optimize directly)
+	{
+		tmp := &CheckResult{}
+		genInRange(w, tmp)
+		genInArray(w, tmp)
+		res.Obls = append(res.Obls, selectObls(tmp.Obls, `^optimizer\.in(Array|Range)\[.*\]/(safe:|post:shape$)`)...)
+		res.Functions = append(res.Functions, tmp.Functions...)
+	}
 	// (2) every node kind has a case in the type switches that run outside a recover
 	genSwitchCoverage(w, res, "checker.visitor.visit", 1)
 	// (3) recover scopes: result shape
